@@ -181,7 +181,10 @@ MalClasses == {"empty", "short1", "short2", "nob64", "b64rand", "b64trunc", "ove
                \* a well-signed fetch request whose nonce is a well-formed activation token the server does not hold / is garbage
                "unknownToken", "garbageToken",
                \* a fetch request whose certificate key keeps the DER header of an Ed25519 key but has the wrong length
-               "keyTrunc", "keyHeaderOnly", "keyLong"}
+               "keyTrunc", "keyHeaderOnly", "keyLong",
+               \* a well-signed fetch request in the relayed shape naming a registered node as the relay, its sealed blob without
+               \* key information; an authentication request without credentials whose client state bytes are no state at all
+               "rewrapNoKeyInfo", "authStateGarbage"}
 MalPrefixes == {"fetch", "auth", "pref"}
 
 (***************************************************************************)
